@@ -75,7 +75,7 @@ SIZES = [4097, 5000, 1 << 16, 1 << 20, 1 << 24, 1 << 28, (1 << 31) - 1, (1 << 32
 
 def gen_hostile(rng):
     t = rng.choice(["table_sizes", "table_sizes", "frame_length", "nesting", "string_length", "options_position",
-                    "many_frames", "entry_ids", "long_varint"])
+                    "many_frames", "entry_ids", "long_varint", "literal_magnitude"])
     h = {"kind": "hostile", "template": t, "seed": rng.randrange(1 << 30), "delimited": rng.random() < 0.7}
     if t == "table_sizes":
         h["which"] = rng.choice(["names", "prefixes", "datatypes", "all"])
@@ -95,6 +95,11 @@ def gen_hostile(rng):
     elif t == "many_frames":
         h["count"] = rng.choice([1000, 100000])
         h["variant"] = rng.choice(["empty", "empty_then_valid", "tiny_rows"])
+    elif t == "literal_magnitude":
+        # a short literal whose lexical form *declares* a size: a decimal / double / integer with a huge exponent
+        h["exponent"] = rng.choice([1000, 1_000_000, 30_000_000, 100_000_000])
+        h["sign"] = rng.choice(["+", "+", "-"])
+        h["datatype"] = rng.choice(["decimal", "decimal", "double", "integer", "float"])
     elif t == "long_varint":
         h["length"] = rng.choice([11, 64, 4096, 1 << 16, 1 << 18, 1 << 20])
         h["where"] = rng.choice(["start", "after_frame", "inside_row"])
@@ -251,6 +256,13 @@ def build_hostile(rec, rng) -> bytes:
         first = wire.Frame([wire.enc_row(("options", _opts()))]).encode()
         tiny = wire.Frame([wire.enc_row(("name", 0, "n"))]).encode()
         return wire.join_delimited([first] + [tiny] * n)
+    if t == "literal_magnitude":
+        lex = f"1E{rec['sign']}{rec['exponent']}"
+        rows = [wire.enc_row(("options", _opts())), wire.enc_row(("prefix", 0, "http://e/")),
+                wire.enc_row(("name", 0, "a")),
+                wire.enc_row(("datatype", 0, "http://www.w3.org/2001/XMLSchema#" + rec["datatype"])),
+                wire.enc_row(("triple", ("iri", 1, 0), ("iri", 0, 1), ("lit", lex, ("dt", 1))))]
+        return stream(rows)
     if t == "long_varint":
         run = b"\xff" * rec["length"] + b"\x01"
         first = wire.write_stream([wire.Frame([wire.enc_row(("options", _opts()))] + _stmt_rows())], True)
@@ -433,6 +445,8 @@ def execute(plan, sim):
         sim.event("input", i, rec["kind"], res["len"], res["outcome"], res["detail"], res["items"])
         oc = res["outcome"]
         sig_base = {"kind": rec["kind"], "template": rec.get("template") or rec.get("op") or "-"}
+        if rec.get("template") == "literal_magnitude":
+            sig_base["integration"] = rec["integration"]
         where = f"input {i} ({rec['kind']} {rec.get('template') or rec.get('op') or ''}, {res['len']} bytes, " \
                 f"{rec['integration']} {rec['consumer']} via {rec['frontend']})"
         if oc == "returned":
